@@ -716,3 +716,94 @@ PROPS["C16"] = {
                     "T1: the set of functions calling CheckPermissions and the check-before-write order are regenerated from the source "
                     "on every run (fact_C16_*)"],
 }
+
+
+# ------------------------------------------------------------------------------------------------ C18 devgas
+def pcoins(s):
+    return {it.rsplit("=", 1)[0]: int(it.rsplit("=", 1)[1]) for it in plist(s)}
+
+
+def oracle_c18(run, ops, impl):
+    out = []
+    P = None
+    reg = {}
+    contracts = {}
+    gov = ""
+    for i, (op, ob) in enumerate(zip(ops, impl)):
+        a = op.split()
+        if a[1] == "reset":
+            P = dict(enabled=a[2] == "1", share=int(a[3]), allowed=plist(sec(a[4:], "ALLOWED")))
+            gov = sec(a[4:], "GOV")
+            contracts = {}
+            for it in plist(sec(a[4:], "CONTRACTS")):
+                f = it.split("/")
+                contracts[f[0]] = dict(admin="" if f[1] == "_" else f[1], creator="" if f[2] == "_" else f[2])
+            reg = {}
+            continue
+        def parse_reg(ob):
+            r = {}
+            for it in plist(sec(ob.split(), "REG")):
+                f = it.split("/")
+                r[f[0]] = (f[1], f[2])
+            return r
+        if a[1] == "payout":
+            fee, targets = pcoins(a[2]), plist(a[3])
+            registered_targets = [t for t in targets if t in reg and reg[t][1] not in ("", "_")]
+            if ob.startswith("paid"):
+                f = ob.split()
+                each, to = pcoins(sec(f, "EACH")), plist(sec(f, "TO"))
+                n = len(to)
+                if not P["enabled"] or not registered_targets:
+                    out.append(V("C18:paid-although-disabled-or-unregistered", {"line": i + 1, "op": op[:300], "obs": ob[:200]}))
+                if sorted(to) != sorted(reg[t][1] for t in registered_targets):
+                    out.append(V("C18:wrong-recipients", {"line": i + 1, "to": to, "want": [reg[t][1] for t in registered_targets]}))
+                for d, amt in each.items():
+                    own = fee.get(d, 0) if (not P["allowed"] or d in P["allowed"]) else 0
+                    if n * amt * P18 > P["share"] * own + n * P18:
+                        dup = "duplicate-allowed-denom" if P["allowed"].count(d) > 1 else "plain"
+                        out.append(V("C18:payout-exceeds-share-of-fee:%s" % dup, {"line": i + 1, "denom": d, "each": amt, "recipients": n, "fee": own,
+                                                                                  "share_raw": str(P["share"]), "allowed": P["allowed"]}))
+            elif ob.startswith("uneven") or ob.startswith("unequal") or ob.startswith("none-but-paid"):
+                out.append(V("C18:unequal-split", {"line": i + 1, "obs": ob}))
+            continue
+        if ob.startswith("panic"):
+            reg = parse_reg(ob) if "REG=" in ob else reg
+            continue
+        res = ob.split()[0]
+        new = parse_reg(ob)
+        contract, sender = a[2], a[3]
+        if res != "ok":
+            if new != reg:
+                out.append(V("C18:rejected-message-changed-registry", {"line": i + 1, "op": op}))
+        else:
+            info = contracts.get(contract)
+            owner = info and (info["admin"] == sender or (info["admin"] == "" and info["creator"] == sender))
+            if a[1] == "register":
+                factory = info and (info["admin"] == gov or (info["admin"] == "" and info["creator"] in contracts) or
+                                    (info["admin"] not in ("", sender) and info["admin"] in contracts))
+                wd = "" if a[4] == "_" else a[4]
+                if not (owner or (factory and wd == contract)):
+                    out.append(V("C18:register-by-non-owner", {"line": i + 1, "op": op, "info": info}))
+                if factory and wd != contract:
+                    out.append(V("C18:factory-contract-names-other-withdrawer", {"line": i + 1, "op": op, "info": info}))
+            else:
+                if not owner:
+                    out.append(V("C18:%s-by-non-owner" % a[1], {"line": i + 1, "op": op, "info": info}))
+        reg = new
+    return out
+
+
+PROPS["C18"] = {
+    "modules": ["NibiruProofs.C18"],
+    "runs": [{"model": "devgas", "n_quick": 150, "n_thorough": 2500, "nontrivial": r"^paid EACH=[a-z]|^ok REG=n"}],
+    "oracle": oracle_c18,
+    "rule": "each case is one generated history: real wasm contracts (no admin / user admin / gov-module admin / contract admin / "
+            "self-administered) instantiated once; per case random params (enabled, DeveloperShares in [0,1] incl. 18-digit fractions, "
+            "allowed-denom lists incl. repeated denoms), then Register/Update/Cancel messages by admins, creators, strangers, contracts "
+            "(ValidateBasic + handler on a branched context) interleaved with transactions pushed through the real payout decorator "
+            "(0–5 MsgExecuteContract to registered/unregistered/unknown contracts mixed with bank sends, fees of 1–3 base units up to "
+            "2^62 in up to three denoms, fee collector funded like DeductFee does); observations: registry contents, who was paid what; "
+            "non-trivial = a payout happened or a registration was accepted",
+    "assumptions": ["wasm ContractInfo (admin, creator) is a parameter read from the real wasm keeper",
+                    "the decorator sits directly after DeductFee (fact_C18_payout_after_fee_deduction, regenerated every run)"],
+}
